@@ -34,6 +34,7 @@ fn main() {
 		"response_member_forms" => probes::response_member_forms(),
 		"subscription_id_reuse" => probes::subscription_id_reuse(),
 		"client_fragmented_reply_with_timers" => probes::client_fragmented_reply_with_timers(),
+		"generated_subscription_names" => probes::generated_subscription_names(),
 		_ => json!({"probe": name, "error": "unknown probe"}),
 	};
 	println!("{}", res);
